@@ -46,7 +46,8 @@ class DiscStorage:
 
     def persist(self, name):
         try:
-            file = self._lookup_path(name)
+            # a full hash is written without wildcard: external("<hash>.txt")
+            file = self._lookup_path(external(name)._path)
         except HashError:
             return
         if file.stem.endswith("-new"):
